@@ -139,10 +139,11 @@ def generate(seed_: int, run: int, reactions: list[str], wild_hash_seeds: bool =
                 # churn: short-lived builders on deep copies of *other* reactions are created, aligned,
                 # formulated and released, so that later objects may reuse their addresses
                 for _ in range(rng.choice([2, 3])):
-                    tag = rng.choice(relabelled)
+                    tag = rng.choice(relabelled) if rng.random() < 0.5 else rng.choice(tags)
                     extra = n_builders + rng.randrange(3)
+                    how = rng.choice(["dpd1", "dpd2", "dpd3"]) if tag.endswith("+r") else "axis"
                     ops += [{"op": "new", "b": extra, "rx": tag, "copy": True},
-                            {"op": "align", "b": extra, "v": rng.choice(["dpd1", "dpd2", "dpd3"])},
+                            {"op": "align", "b": extra, "v": how},
                             {"op": "formulate", "b": extra}, {"op": "drop", "b": extra}]
             elif r < 0.07:
                 # blanket assignment: one builder kind for every resonance, formulated on two builders
@@ -160,6 +161,8 @@ def generate(seed_: int, run: int, reactions: list[str], wild_hash_seeds: bool =
                 other = rng.choice([b for b in range(n_builders) if slots[b] == slots[slot]])
                 ops += [{"op": "assign", "b": slot, "sel": sel, "dyn": first}, gen_formulate(rng, slot, False),
                         {"op": "assign", "b": other, "sel": sel, "dyn": second}, gen_formulate(rng, other, False)]
+            elif r < 0.135:
+                ops.append({"op": "edit_model", "b": slot, "i": rng.randrange(50)})
             elif r < 0.16:
                 # unpickling a model in the middle of a history is one more way to warm caches
                 ops += [{"op": "dump", "b": slot, "file": f"m{slot}.pkl"}, {"op": "load", "file": f"m{slot}.pkl"}]
